@@ -1,8 +1,153 @@
 import FtDriver.Json
 open Lean (Json)
 namespace FtDriver
-open Ft
+open Ft Ft.C06
 
-def handleC06 (_j : Json) : Except String Verdict := throw "C06: not implemented"
+namespace C06
+
+def castT {d d' : Nat} (h : d = d') (t : T d) : T d' := h ▸ t
+
+/-- a tree together with its rank ids (loop-variable numbers) -/
+structure Opnd where
+  ids : List Nat
+  t : T ids.length
+
+def Opnd.json (o : Opnd) : Json := treeToJson o.ids.length o.t
+
+def mkOpnd (ids : List Nat) (d : Nat) (t : T d) : Except String Opnd :=
+  if h : d = ids.length then pure ⟨ids, castT h t⟩ else throw "C06: rank list / depth mismatch"
+
+/-- `T.splitUniform(step, rankid=v)` on a tensor whose ranks all have declared shape `n` -/
+def tileOpnd (n : Int) (v : Nat) (step : Int) (o : Opnd) : Except String Opnd := do
+  let k := o.ids.idxOf (2 * v)
+  if k ≥ o.ids.length then return o
+  let d' := o.ids.length - 1 - k
+  if h : o.ids.length = d' + 1 + k then
+    let t : T (d' + 1 + k) := castT h o.t
+    let cfg : SplitCfg := { op := .uniform step, act := some (0, n) }
+    match splitAt cfg (0 : Int) d' k t with
+    | none => throw "C06: split raised in the model"
+    | some r => mkOpnd (o.ids.take k ++ [2 * v + 1, 2 * v] ++ o.ids.drop (k + 1)) (d' + 2 + k) r
+  else throw "C06: tile depth arithmetic"
+
+/-- number of trailing positions on which two lists agree -/
+def commonSuffix (a b : List Nat) : Nat :=
+  ((a.reverse.zip b.reverse).takeWhile (fun p => p.1 == p.2)).length
+
+/-- `T.swizzleRanks(target)` -/
+def swizzleOpnd (target : List Nat) (o : Opnd) : Except String Opnd := do
+  if target == o.ids then return o
+  let s := o.ids.length - commonSuffix o.ids target
+  let r := o.ids.length - s
+  let guide := (target.take s).map (fun id => o.ids.idxOf id)
+  if h : o.ids.length = r + s then
+    let t : T (r + s) := castT h o.t
+    mkOpnd target (r + s) (swizzle (0 : Int) r s guide t)
+  else throw "C06: swizzle depth arithmetic"
+
+def toCur (o : Opnd) : Cur Int := ⟨o.ids, o.t⟩
+
+def styleOf : String → Except String Style
+  | "and" => pure .tf | "tf" => pure .tf | "lf" => pure .lf | "lff" => pure .lff
+  | s => throw s!"C06: unknown style {s}"
+
+/-- all assignments of `vars` over `U` (other variables 0) -/
+def assigns (U : List Int) (vars : List Nat) : List (Nat → Int) :=
+  vars.foldl (fun acc v => acc.flatMap (fun σ => U.map (fun c => upd σ v c))) [fun _ => 0]
+
+def hasExplicitZero : (d : Nat) → T d → Bool
+  | 0, v => decide ((show Int from v) = 0)
+  | d + 1, f => (show List (Int × T d) from f).any (fun e => hasExplicitZero d e.2)
+
+def hasEmptySub : (d : Nat) → T d → Bool
+  | 0, _ => false
+  | 1, _ => false
+  | d + 2, f => (show List (Int × T (d + 1)) from f).any
+      (fun e => (show List (Int × T d) from e.2).isEmpty || hasEmptySub (d + 1) e.2)
+
+/-- how many participants each loop has (a static property of the program) -/
+def partCounts (order : List Nat) (ranks : List (List Nat)) : List Nat :=
+  order.map (fun v => (ranks.filter (fun r => r.contains v)).length)
+
+end C06
+
+open C06 in
+def handleC06 (j : Json) : Except String Verdict := do
+  let nv ← fNat j "nvars"
+  let n ← fNat j "n"
+  let order ← (← fArr j "order").mapM (·.getNat?)
+  let out ← (← fArr j "out").mapM (·.getNat?)
+  let style ← styleOf (← fStr j "style")
+  let tiles ← (← fArr j "tiles").mapM (fun e => do
+    match (← asList e) with
+    | [v, s] => pure ((← v.getNat?), (← s.getInt?))
+    | _ => throw "C06: tile")
+  let U : List Int := (List.range n).map (fun (i : Nat) => (i : Int))
+  -- original operands
+  let orig ← (← fArr j "ops").mapM (fun o => do
+    let ranks ← (← fArr o "ranks").mapM (·.getNat?)
+    let t ← parseTree ranks.length (← field o "t")
+    mkOpnd (ranks.map (2 * ·)) ranks.length t)
+  -- model domain: well-formed operands inside the declared shape, a loop order that is a
+  -- permutation of the loop variables, every loop variable in some operand, positive steps
+  let tiled (v : Nat) : Bool := tiles.any (fun t => t.1 == v)
+  let loopVars := (List.range nv).flatMap (fun v => if tiled v then [2 * v + 1, 2 * v] else [2 * v])
+  let okOrder := order.length == loopVars.length && loopVars.all (order.contains ·) && order.eraseDups.length == order.length
+  let okOps := orig.all (fun o => wfB o.ids.length o.t && coordsInB U o.ids.length o.t && o.ids.eraseDups.length == o.ids.length
+    && o.ids.all (fun i => i / 2 < nv))
+  let okCover := (List.range nv).all (fun v => orig.any (fun o => o.ids.contains (2 * v)))
+  let okTiles := tiles.all (fun t => t.2 > 0 && t.1 < nv) && (tiles.map (·.1)).eraseDups.length == tiles.length
+  if !(okOrder && okOps && okCover && okTiles && out.all (· < nv) && !orig.isEmpty) then
+    return { agree := true, spec := true, tags := ["OUT_OF_MODEL"] }
+  -- model pipeline: tile, swizzle
+  let prepared ← orig.mapM (fun o => do
+    let o1 ← tiles.foldlM (fun o t => tileOpnd n t.1 t.2 o) o
+    swizzleOpnd (order.filter (o1.ids.contains ·)) o1)
+  let zr := order.filter (fun l => out.contains (l / 2))
+  let z0 : T zr.length := defaultTree (0 : Int) zr.length
+  let zm := run style order (prepared.map toCur) zr z0
+  -- implementation's observation
+  let impl ← field j "impl"
+  let implOps ← fArr impl "ops"
+  let zJ ← field impl "z"
+  let implerr := fStrD j "implerr" ""
+  -- the dense result of the ORIGINAL operands, at the output's (tiled) points
+  let stepOf (v : Nat) : Int := ((tiles.find? (fun t => t.1 == v)).map (·.2)).getD 1
+  let zpt : (Nat → Int) → List Int := fun σ =>
+    zr.map (fun l => if l % 2 == 1 then tileOf (stepOf (l / 2)) (σ (l - 1)) else σ l)
+  let vars := (List.range nv).map (2 * ·)
+  let σ0 : Nat → Int := fun _ => 0
+  let cands := ((sortLex ((assigns U vars).map (fun σ => (zpt σ, ())))).map (·.1)).eraseDups
+  let expected := denseOn U vars (orig.map toCur) zpt σ0 cands
+  let cancel := cands.any (fun q => einsum U vars (orig.map toCur) zpt q σ0 == 0 &&
+    (assigns U vars).any (fun σ => zpt σ == q && prodVal (orig.map toCur) σ != 0))
+  let pc := partCounts order (prepared.map (·.ids))
+  let tags := (if expected.isEmpty then [] else ["nonzero"]) ++ (if cancel then ["cancel"] else []) ++
+    (if pc.any (· == 2) then ["coiter2"] else []) ++ (if pc.any (· ≥ 3) then ["coiter3"] else []) ++
+    (if zr.isEmpty then ["scalar-out"] else ["populate"]) ++
+    (if tiles.isEmpty then [] else ["tiled"]) ++
+    (if tiles.any (fun t => out.contains t.1) then ["tiled-out"] else []) ++
+    [match style with | .tf => "style-tf" | .lf => "style-lf" | .lff => "style-lff"] ++
+    (if orig.any (fun o => (content (0 : Int) o.ids.length o.t).isEmpty) then ["empty-operand"] else []) ++
+    (if orig.any (fun o => hasExplicitZero o.ids.length o.t) then ["explicit-zero"] else []) ++
+    (if orig.any (fun o => hasEmptySub o.ids.length o.t) then ["empty-subfiber"] else []) ++
+    (if prepared.zip orig |>.any (fun p => p.1.ids != p.2.ids && p.1.ids.length == p.2.ids.length) then ["swizzled"] else []) ++
+    (if order != loopVars then ["reordered"] else []) ++
+    (if !canonicalB (0 : Int) zr.length zm then ["z-residue"] else [])
+  if implerr != "" || zJ.isNull then
+    return { agree := false, spec := false, model := treeToJson zr.length zm, tags,
+             why := s!"the program raised {implerr}" }
+  let zi ← parseTree zr.length zJ
+  let agreeOps := implOps.length == prepared.length &&
+    (implOps.zip prepared).all (fun p => p.1.compress == p.2.json.compress)
+  let agreeZ := treeEq zr.length zm zi
+  let specContent := decide ((content (0 : Int) zr.length zi : List (List Int × Int)) = expected)
+  let specWf := wfB zr.length zi
+  let why := (if !agreeOps then "tiled/swizzled operands differ from the model's; " else "") ++
+    (if !agreeZ then "output tree differs from the model's; " else "") ++
+    (if !specContent then "output content is not the non-zero entries of the dense result; " else "") ++
+    (if !specWf then "output not well-formed; " else "")
+  pure { agree := agreeOps && agreeZ, spec := specContent && specWf,
+         model := treeToJson zr.length zm, tags, why }
 
 end FtDriver
